@@ -95,7 +95,9 @@ impl ExtensionsMap {
                     result.private = PrivateExtensionList::try_from_iter(iter)?;
                 }
                 None => {}
-                _ => unimplemented!(),
+                // Extensions other than `t`, `u` and `x` are not supported.
+                Some(Ok(ExtensionType::Other(_))) => return Err(ParserError::InvalidExtension),
+                Some(Err(err)) => return Err(err),
             }
 
             st = iter.next();
